@@ -2,6 +2,7 @@
 mod common;
 mod c20;
 mod c07;
+mod c04;
 mod c03;
 mod c01;
 mod c15;
@@ -40,6 +41,7 @@ fn main() {
   let (generate, exec): (fn(u64, bool, &mut Sink) -> Vec<String>, fn(&str) -> String) = match prop {
     "C20" => (c20::generate, c20::exec),
     "C07" => (c07::generate, c07::exec),
+    "C04" => (c04::generate, c04::exec),
     "C03" => (c03::generate, c03::exec),
     "C01" => (c01::generate, c01::exec),
     "C15" => (c15::generate, c15::exec),
@@ -51,9 +53,11 @@ fn main() {
   } else {
     // corpus first (minimised past failures and finding witnesses), then generated cases
     let mut v = vec![];
-    let corpus = format!("{}/../corpus/{}.cases", env!("CARGO_MANIFEST_DIR"), prop);
-    if let Ok(text) = std::fs::read_to_string(&corpus) {
-      for l in text.lines() { if !l.trim().is_empty() && !l.starts_with('#') { v.push(l.split("\t@@\t").next().unwrap().to_string()); sink.hit("corpus"); } }
+    for suffix in ["cases", "extra.cases"] {
+      let corpus = format!("{}/../corpus/{}.{}", env!("CARGO_MANIFEST_DIR"), prop, suffix);
+      if let Ok(text) = std::fs::read_to_string(&corpus) {
+        for l in text.lines() { if !l.trim().is_empty() && !l.starts_with('#') { v.push(l.split("\t@@\t").next().unwrap().to_string()); sink.hit("corpus"); } }
+      }
     }
     v.extend(generate(seed, thorough, &mut sink));
     v
